@@ -158,6 +158,16 @@ Definition upd (en : env) (w : wrt) (x : R) : env :=
   | WRV b => mkEnv (e_beta en) (e_var en) (e_draw en) (set_name b x (e_rv en)) (e_draws en) (e_rows en)
   end.
 
+(* the value currently attached to w *)
+Definition wrt_val (en : env) (w : wrt) : option R :=
+  match w with WBeta b => e_beta en b | WVar b => e_var en b | WRV b => e_rv en b end.
+
+Definition wrt_eqb (a b : wrt) : bool :=
+  match a, b with
+  | WBeta x, WBeta y | WVar x, WVar y | WRV x, WRV y => String.eqb x y
+  | _, _ => false
+  end.
+
 Definition valR (v : xval) : R := match v with XR r => r | _ => 0%R end.
 
 (* x ** c is differentiable at x *)
